@@ -124,4 +124,6 @@ def _(c):
               label='rows-volume-time-aligned')
     c.ensures('result.simulation_result.shape[1] == sim.num_species', label='one-column-per-species')
     c.ensures('arr(sim.initial_state) == old(arr(sim.initial_state))', label='initial-condition-untouched')
+    c.ensures('arr(sim.update_array) == old(arr(sim.update_array)) and arr(sim.delay_update_array) == old(arr(sim.delay_update_array))',
+              label='model-stoichiometry-untouched')
     c.opt(result_class='VolumeSSAResult')
